@@ -134,4 +134,21 @@ def drawLayers (fam : Family) (layers : List (String × Layer)) (ports : List (S
     Except LayerErr (List DrawnLayer) :=
   if fam.isOrthogonal || fam.isHex then drawLayersLoop fam layers ports else .error .attribute
 
+inductive FullErr where
+  | agents (e : Err)         -- raised while the agents are drawn
+  | layers (e : LayerErr)    -- raised afterwards, by `draw_property_layers`
+deriving DecidableEq, Repr
+
+/-- `draw_space(space, agent_portrayal, propertylayer_portrayal, ax)`: the agents, then — `if propertylayer_portrayal:`,
+    so not for an empty request, whatever the class — the property layers on the same Axes -/
+def drawSpaceFull (sp : Space) (heap : Heap) (p : Portrayal) (layers : List (String × Layer))
+    (ports : List (String × LayerPortrayal)) : Except FullErr (List Group × List DrawnLayer) :=
+  match drawSpace sp heap p with
+  | .error e => .error (.agents e)
+  | .ok gs =>
+    if ports.isEmpty then .ok (gs, [])
+    else match drawLayers sp.fam layers ports with
+      | .error e => .error (.layers e)
+      | .ok ds => .ok (gs, ds)
+
 end Mesa.Viz
